@@ -239,7 +239,7 @@ def run_case(case):
 def _cfg(block):
     dw = st.sampled_from([8, 16, 32, 64, 128])
     if block == 'Axi2Reg':
-        return dw.flatmap(lambda d: st.fixed_dictionaries({'dw': st.just(d), 'wq': st.one_of(st.integers(1, min(d, 64)), st.just(min(d, 64))),
+        return dw.flatmap(lambda d: st.fixed_dictionaries({'dw': st.just(d), 'wq': st.one_of(st.integers(1, min(d, 64)), st.just(min(d, 64)), st.integers(1, d), st.just(d)),
                                                            'side': st.booleans()}))
     return st.fixed_dictionaries({'dw': dw, 'w': st.one_of(st.integers(1, 64), st.sampled_from([1, 8, 9, 32, 64]))})
 
